@@ -417,3 +417,142 @@ func ReadMessages(r io.Reader, withMetaCB bool, keepOrig bool, maxItems int, opt
 		}
 	}
 }
+
+// ---- cheap event signatures for the fault-enumeration loops
+
+type sigHash struct{ h uint64 }
+
+func newSig() *sigHash { return &sigHash{14695981039346656037} }
+func (s *sigHash) b(p []byte) {
+	for _, c := range p {
+		s.h ^= uint64(c)
+		s.h *= 1099511628211
+	}
+	s.u(uint64(len(p)))
+}
+func (s *sigHash) str(p string) {
+	for i := 0; i < len(p); i++ {
+		s.h ^= uint64(p[i])
+		s.h *= 1099511628211
+	}
+	s.u(uint64(len(p)))
+}
+func (s *sigHash) u(v uint64) {
+	for i := 0; i < 8; i++ {
+		s.h ^= v & 0xff
+		s.h *= 1099511628211
+		v >>= 8
+	}
+}
+func (s *sigHash) kvs(in []wl.KV) {
+	for _, kv := range in {
+		s.str(kv.K)
+		s.str(kv.V)
+	}
+	s.u(uint64(len(in)))
+}
+
+// AttFieldsSig hashes an attachment event's fields without data and CRC results.
+func AttFieldsSig(a *AttEvent) uint64 {
+	s := newSig()
+	s.u(a.LogTime)
+	s.u(a.CreateTime)
+	s.str(a.Name)
+	s.str(a.MediaType)
+	s.u(a.DataSize)
+	return s.h
+}
+
+// Sig is a content hash of an event: two events with different parsed content have different
+// signatures (up to 64-bit collisions).
+func Sig(e *Event) uint64 {
+	s := newSig()
+	s.str(e.Kind)
+	switch {
+	case e.H != nil:
+		s.str(e.H.Profile)
+		s.str(e.H.Library)
+	case e.S != nil:
+		s.u(uint64(e.S.ID))
+		s.str(e.S.Name)
+		s.str(e.S.Encoding)
+		s.b(e.S.Data)
+	case e.C != nil:
+		s.u(uint64(e.C.ID))
+		s.u(uint64(e.C.SchemaID))
+		s.str(e.C.Topic)
+		s.str(e.C.MessageEncoding)
+		s.kvs(e.C.Metadata)
+	case e.M != nil:
+		s.u(uint64(e.M.ChannelID))
+		s.u(uint64(e.M.Sequence))
+		s.u(e.M.LogTime)
+		s.u(e.M.PublishTime)
+		s.b(e.M.Data)
+	case e.A != nil:
+		s.u(AttFieldsSig(e.A))
+		s.b(e.A.Data)
+		s.u(uint64(e.A.ParsedCRC))
+		s.u(uint64(e.A.ComputedCRC))
+		s.str(e.A.ParsedErr)
+		s.str(e.A.ComputedErr)
+		s.str(e.A.ReadErr)
+	case e.D != nil:
+		s.str(e.D.Name)
+		s.kvs(e.D.Metadata)
+	case e.St != nil:
+		s.str(fmt.Sprintf("%+v", *e.St))
+	case e.CI != nil:
+		s.str(fmt.Sprintf("%+v", *e.CI))
+	case e.AI != nil:
+		s.str(fmt.Sprintf("%+v", *e.AI))
+	case e.MI != nil:
+		s.str(fmt.Sprintf("%+v", *e.MI))
+	case e.SO != nil:
+		s.str(fmt.Sprintf("%+v", *e.SO))
+	case e.F != nil:
+		s.str(fmt.Sprintf("%+v", *e.F))
+	case e.DE != nil:
+		s.str(fmt.Sprintf("%+v", *e.DE))
+	case e.X != nil:
+		s.u(uint64(e.X.ChannelID))
+		for _, r := range e.X.Entries() {
+			s.u(r.Timestamp)
+			s.u(r.Offset)
+		}
+	case e.Raw != nil:
+		s.b(e.Raw)
+	}
+	return s.h
+}
+
+func Sigs(evs []Event) []uint64 {
+	out := make([]uint64, len(evs))
+	for i := range evs {
+		out[i] = Sig(&evs[i])
+	}
+	return out
+}
+
+func TripleSig(t *Triple) uint64 {
+	s := newSig()
+	if t.S != nil {
+		s.u(uint64(t.S.ID))
+		s.str(t.S.Name)
+		s.str(t.S.Encoding)
+		s.b(t.S.Data)
+	}
+	if t.C != nil {
+		s.u(uint64(t.C.ID))
+		s.u(uint64(t.C.SchemaID))
+		s.str(t.C.Topic)
+		s.str(t.C.MessageEncoding)
+		s.kvs(t.C.Metadata)
+	}
+	s.u(uint64(t.M.ChannelID))
+	s.u(uint64(t.M.Sequence))
+	s.u(t.M.LogTime)
+	s.u(t.M.PublishTime)
+	s.b(t.M.Data)
+	return s.h
+}
